@@ -440,6 +440,49 @@ func genC17(repo string) (string, error) {
 	})
 	fmt.Fprintf(&sb, "/-- the unit switch of Interval.ValueOf -/\ndef suffixUnits : List (Char × Int) := [%s]\n", strings.Join(sus, ", "))
 
+	// ---- queryStmtParser.build(): where TimeRange comes from. Every statement that writes
+	// query.TimeRange (or one of its fields), with the chain of enclosing if-conditions.
+	_, qp, err := ParseFile(repo, "sql/query_stmt_parser.go")
+	if err != nil {
+		return "", err
+	}
+	bf := FindFunc(qp, "queryStmtParser", "build")
+	if bf == nil {
+		return "", fmt.Errorf("queryStmtParser.build not found")
+	}
+	var trs []string
+	var walkTR func(stmts []ast.Stmt, conds string)
+	walkTR = func(stmts []ast.Stmt, conds string) {
+		for _, st := range stmts {
+			switch x := st.(type) {
+			case *ast.AssignStmt:
+				for i, l := range x.Lhs {
+					lt := exprText(l)
+					if strings.HasPrefix(lt, "query.TimeRange") || lt == "now" {
+						r := "?"
+						if len(x.Rhs) == len(x.Lhs) {
+							r = exprText(x.Rhs[i])
+						}
+						trs = append(trs, fmt.Sprintf("(%s, %s, %s)", c17LeanStr(lt), c17LeanStr(conds), c17LeanStr(r)))
+					}
+				}
+			case *ast.IfStmt:
+				cnd := exprText(x.Cond)
+				if conds != "" {
+					cnd = conds + " && " + cnd
+				}
+				walkTR(x.Body.List, cnd)
+				if eb, ok := x.Else.(*ast.BlockStmt); ok {
+					walkTR(eb.List, "!("+cnd+")")
+				}
+			case *ast.BlockStmt:
+				walkTR(x.List, conds)
+			}
+		}
+	}
+	walkTR(bf.Body.List, "")
+	fmt.Fprintf(&sb, "\n/-- queryStmtParser.build: (assigned, enclosing conditions, value) for `now` and query.TimeRange -/\ndef buildTimeRange : List (String × String × String) := [%s]\n", strings.Join(trs, ",\n  "))
+
 	// ---- plan stages: where the payload of a task request comes from, and what the receiving
 	// processors unmarshal
 	var pps, calls []string
